@@ -255,7 +255,8 @@ where
 {
     fn evaluate(&self, problem: &P, state: &mut State<P>) -> ExecResult<bool> {
         let value = self.lens.get(problem, state)?;
-        Ok(value % self.n == 0)
+        // The only multiple of zero is zero itself (`value % 0` would panic).
+        Ok(value.checked_rem(self.n).map_or(value == 0, |rem| rem == 0))
     }
 }
 
